@@ -53,11 +53,16 @@ Definition checkS (c : case_t) : bool :=
   | CEval f ca ss o =>
       match o with
       | Some os => spec_eval_ok f ca ss os
-      | None => match exec (file_env f) ss with None => true | Some _ => false end
+      | None => match exec false (file_env f) ss with None => true | Some _ => false end
       end
   end.
 
-(* no known-defect region is left after the repairs *)
-Definition region (c : case_t) : nat := 0.
+(* region 1: eval statements in which a plain file variable stands to the left of a bare numpy masked
+   array (np.ma.* call) and the dropped mask is observable *)
+Definition region (c : case_t) : nat :=
+  match c with
+  | CEval f _ ss _ => if eval_quirk_region f ss then 1 else 0
+  | _ => 0
+  end.
 
 Definition check (c : case_t) : verdict := (checkF c, checkS c, region c).
